@@ -53,6 +53,7 @@ type Spec struct {
 	Outside     []string          `json:"outside"`
 	Assumptions []string          `json:"assumptions"`
 	MapPermMax  int               `json:"map_perm_max"`
+	EntryParams map[string]map[string]int64 `json:"entry_params"` // entry -> parameter overrides
 	FairLoops   []string          `json:"fair_loops"` // functions whose spin loops are cut by a fairness assumption
 	NoReplay    bool              `json:"no_replay"`
 	ScheduleReplay map[string]bool `json:"schedule_replay"` // entries whose counterexamples depend on a schedule
@@ -337,6 +338,15 @@ func cmdRun(args []string) int {
 			problems = append(problems, "entry not found: "+en)
 			continue
 		}
+		// parameters overridden for this entry only
+		eng.params = map[string]int64{}
+		for k, v := range ts.Params {
+			eng.params[k] = v
+		}
+		for k, v := range spec.EntryParams[en] {
+			eng.params[k] = v
+		}
+		replayParams = eng.params
 		// replacements that apply to this entry only
 		eng.replace = map[string]*ssa.Function{}
 		for real, h := range spec.Replace {
